@@ -597,13 +597,20 @@ func c15Gen(g *Gen) {
 	c15Drops(g)
 	c15Matchers(g)
 	c15Unescapes(g)
+	c15Edges(g)
+	c15SameLength(g)
 	c15Malformed(g)
 	// random programs
-	for i := 0; i < g.Pick(2500, 40000); i++ {
+	for i := 0; i < g.Pick(2000, 40000); i++ {
 		x := &c15G{g: g, r: r, cand: map[string][]string{}}
 		prog := x.nodes(0, 1, 4)
 		c15MakeAliasSafe(prog)
-		out := c15Emit(g, "random-program", prog, c15Schema, x.records(r.Range(4, 10)))
+		recs := x.records(r.Range(4, 10))
+		// the first record again, several times in a row, through the same instance
+		for k := r.Range(0, 3); k > 0; k-- {
+			recs = append(recs, &c15Rec{Fields: append([]string{}, recs[0].Fields...), RawLen: recs[0].RawLen, Unesc: recs[0].Unesc})
+		}
+		out := c15Emit(g, "random-program", prog, c15Schema, recs)
 		if out != "" {
 			c15CountKinds(g, prog)
 		}
@@ -925,4 +932,76 @@ func c15Malformed(g *Gen) {
 	// empty program, schema variations
 	c15Emit(g, "malformed", nil, c15Schema, recs)
 	c15Emit(g, "schema", one(&c15Node{Kind: kAddFields, Pairs: [][2]string{{"b", "$a"}, {"a", "$b"}}}), []string{"b", "a"}, []*c15Rec{{Fields: []string{"1", "2"}, RawLen: 3}})
+}
+
+// the boundary exactly at, just inside and just outside the search range, for every small range
+func c15Edges(g *Gen) {
+	type pc struct {
+		head        bool
+		left, right string
+		cls         string // "" = '*'
+		ok          byte
+	}
+	pcs := []pc{{true, "[", "]", "", 'a'}, {true, "", ":", "[a-z]", 'k'}, {true, "id=", " ", "[0-9]", '7'}, {true, "<", "] - ", "[^ ]", 'x'},
+		{false, ":", "", "[0-9a-f-]", 'e'}, {false, "/", "", "", 'v'}, {false, "<{", "}", "", 'q'}, {false, " - [", "]", "[A-Z]", 'Q'}}
+	for _, p := range pcs {
+		for _, m := range []int{1, 2, 3, 4, 5, 6, 7, 8, 9, 16, 41, 100} {
+			wc := "*"
+			if p.cls != "" {
+				wc = p.cls
+			}
+			kind := kExTail
+			if p.head {
+				kind = kExHead
+			}
+			node := &c15Node{Kind: kind, Key: "log", Pat: c15EscapePat(p.left) + wc + c15EscapePat(p.right), Num: strconv.Itoa(m), Dest: "cls"}
+			bnd := len(p.right)
+			if !p.head {
+				bnd = len(p.left)
+			}
+			var recs []*c15Rec
+			for d := -3; d <= 3; d++ {
+				k := m - bnd + d
+				if k < 0 {
+					continue
+				}
+				lbl := strings.Repeat(string(p.ok), k)
+				for _, rest := range []string{"", "r", "the rest of the text which is longer than any range used here .............................................................."} {
+					v := p.left + lbl + p.right + rest
+					if !p.head {
+						v = rest + p.left + lbl + p.right
+					}
+					if len(v) <= 250 {
+						recs = append(recs, recOf(v, "", "", "old"))
+					}
+				}
+			}
+			c15Emit(g, "extract-edge", one(node), c15Schema, recs)
+		}
+	}
+}
+
+// edits whose result has the same length as (or equals) what was there before
+func c15SameLength(g *Gen) {
+	c15Emit(g, "same-length", one(&c15Node{Kind: kAddFields, Pairs: [][2]string{{"aux", "${log[0:3]}"}}}), c15Schema,
+		[]*c15Rec{recOf("abcdef", "", "", "", "xyz"), recOf("abcdef", "", "", "", "abc"), recOf("abcdef", "", "", "", "ab"), recOf("ab", "", "", "", "ab"), recOf("", "", "", "", "old"), recOf("abcdef", "", "", "", "")})
+	c15Emit(g, "same-length", one(&c15Node{Kind: kAddFields, Pairs: [][2]string{{"aux", "$log"}, {"cls", "k=$log"}}}), c15Schema,
+		[]*c15Rec{recOf("abc", "", "", "k=xyz", "xyz"), recOf("abc", "", "", "k=abc", "abc"), recOf("", "", "", "c", "a")})
+	c15Emit(g, "same-length", one(&c15Node{Kind: kMapValue, Key: "lvl", Pairs: [][2]string{{"abc", "xyz"}, {"ab", "ab"}, {"a", ""}}, Default: "dfl"}), c15Schema,
+		[]*c15Rec{recOf("", "", "abc"), recOf("", "", "ab"), recOf("", "", "a"), recOf("", "", "xyz"), recOf("", "", "dfl"), recOf("", "", ""), recOf("", "", "abcd")})
+	c15Emit(g, "same-length", one(&c15Node{Kind: kMapValue, Key: "lvl", Pairs: [][2]string{{"abc", "xyz"}}, Default: ""}), c15Schema,
+		[]*c15Rec{recOf("", "", "abc"), recOf("", "", "abd"), recOf("", "", "")})
+	c15Emit(g, "same-length", one(&c15Node{Kind: kReplace, Key: "log", Pat: "ab", Repl: "XY"}), c15Schema,
+		[]*c15Rec{recOf("ab"), recOf("xabx"), recOf("abab"), recOf("ba"), recOf("")})
+	c15Emit(g, "same-length", one(&c15Node{Kind: kUnescape, Key: "log"}), c15Schema,
+		[]*c15Rec{recOf(`\x\y`), recOf(`\x`), recOf(`\\`), recOf(`\`), recOf(`a\`)})
+	c15Emit(g, "same-length", one(&c15Node{Kind: kDelFields, Keys: []string{"log", "log", "aux"}}), c15Schema,
+		[]*c15Rec{recOf("a", "b", "c", "d", "e"), recOf("", "b", "", "", "")})
+	// the smallest legal settings
+	c15Emit(g, "smallest", []*c15Node{{Kind: kTruncate, Key: "log", Num: "1", Suffix: "."}}, c15Schema,
+		[]*c15Rec{recOf(""), recOf("a"), recOf("ab"), recOf("abc"), recOf("é"), recOf("éa"), recOf("éab"), recOf("aé"), recOf("\x80bc")})
+	c15Emit(g, "smallest", []*c15Node{{Kind: kExHead, Key: "log", Pat: "*:", Num: "1", Dest: "cls"}, {Kind: kExTail, Key: "app", Pat: ":*", Num: "1", Dest: "aux"}}, c15Schema,
+		[]*c15Rec{recOf(":", ":"), recOf(":x", "x:"), recOf("a:x", "x:a"), recOf("", ""), recOf("a", "a")})
+	c15Emit(g, "smallest", []*c15Node{{Kind: kIf, Match: []c15Match{{"log", opLenGt, "0"}, {"app", opLenLt, "1"}}, Then: one(&c15Node{Kind: kAddFields, Pairs: [][2]string{{"aux", "Y"}}})}}, c15Schema,
+		[]*c15Rec{recOf("", ""), recOf("a", ""), recOf("a", "b"), recOf("", "b")})
 }
